@@ -4,6 +4,7 @@ Domain per location: interval [lo,hi] + symbolic strict/non-strict upper bounds 
 + end-of-packet tag for values read from the bit packer.  Locations are canonical access paths.  The state can be
 partitioned by a client key (used by the typestate rules).  See DESIGN 3.3/K4 and Appendix E."""
 import math
+import struct
 
 import cfg
 from facts import AnalysisBroken
@@ -1236,6 +1237,19 @@ class Analyzer:
                 if v.lo != -INF and v.hi != INF and not v.is_bottom() and rr[0] <= v.lo and v.hi <= rr[1]:
                     return V(math.trunc(v.lo), math.trunc(v.hi))
                 return V(*rr)
+            if nd.get('t', '').strip() in ('float', 'const float') and not v.is_bottom():
+                # a value converted to single precision is rounded to the nearest float ((float)INT_MAX is 2147483648.f)
+                lo, hi = v.lo, v.hi
+                try:
+                    if lo not in (INF, -INF):
+                        lo = struct.unpack('f', struct.pack('f', float(lo)))[0]
+                    if hi not in (INF, -INF):
+                        hi = struct.unpack('f', struct.pack('f', float(hi)))[0]
+                    if lo != v.lo or hi != v.hi:
+                        return v.copy(lo=lo, hi=hi)
+                except (OverflowError, struct.error):
+                    return TOP
+                return v
             return self.convert(v, r)
         if k == 'un':
             op = nd['op']
@@ -1272,6 +1286,16 @@ class Analyzer:
                 return self.compare(op, a, b)
             r = self.arith(op, a, b, nd)
             tr = int_type_range(nd.get('t', ''))
+            if op == '-' and tr and (b.lt or b.le):
+                # X - b with b < X (b <= X) known symbolically: the difference is at least 1 (0)
+                xn = self.ex[self.F.strip_casts(c[0])]
+                if xn['k'] in ('ref', 'member'):
+                    kx = self.path(self.F.strip_casts(c[0]), env)
+                    if kx is not None and not a.is_bottom() and not b.is_bottom():
+                        if kx in b.lt and r.lo < 1:
+                            r = r.copy(lo=1)
+                        elif kx in b.le and r.lo < 0:
+                            r = r.copy(lo=0)
             if tr and nd.get('t', '').startswith('unsigned') and (r.lo < 0 or r.hi > tr[1]):
                 r = V(tr[0], tr[1])
             cse = env.get('$cse')
